@@ -4,7 +4,7 @@
 # module -> harness file(s) under contracts/kani appended to that module's mirror
 KANI_FILES = {
     "random": ["random.rs"],
-    "tensor": ["libm.rs"],
+    "tensor": ["libm.rs", "tensor.rs"],
     "activation": ["activation.rs"],
     "objective": ["objective.rs"],
     "network": ["layers.rs", "network.rs"],
@@ -89,6 +89,22 @@ PLAN = {
         kani=True,
         undecided_clauses=["epoch budgets above 6 and tolerances above 5 (one harness instance per concrete (epochs, tolerance); symbolic bounds run CBMC out of memory)",
                            "that validate() is called exactly once per epoch with the given data is read off the slice, not proved"],
+    ),
+    "C14": dict(
+        title="Reshaping and flattening preserve the row-major element sequence",
+        level="model_checking",
+        verus=[],
+        kani=True,
+        undecided_clauses=["shapes beyond the listed small ones (bounded harnesses on concrete shapes with symbolic contents)",
+                           "get_flat / 3-D -> 3-D reshape of 3-D tensors run only in the thorough tier (nested flat_map needs many minutes of symbolic execution)"],
+    ),
+    "C15": dict(
+        title="Element-wise tensor arithmetic is exact, rank-generic and shape-checked",
+        level="proof",
+        verus=["C15_tensor_ops.rs"],
+        kani=True,
+        undecided_clauses=["iterator zips over more cells than the listed small shapes (the element formula itself is proved for every cell)",
+                           "transpose beyond 1x2 / 2x2 (CBMC solver error on larger ones)", "nested-list add / div (recursion over Tensor)"],
     ),
     "C18": dict(
         title="The random generator stays in range and shuffling is a safe permutation",
@@ -197,6 +213,25 @@ MANIFEST_TEXT = {
              "non-NaN validation-loss trajectories for each concrete (epochs <= 6, tolerance <= 5) instance and checks the three clauses of the "
              "property against a predicate written from the statement. Not a proof for all epoch budgets.",
         note="bounded in epochs/tolerance; the dropped batch loop and print blocks are assumed not to interfere (syntactic scan); validate() is an oracle.",
+    ),
+    "C14": dict(
+        category="model_checking",
+        technique="Kani harnesses on the real flatten / get_flat / get_triple / reshape with concrete small shapes and symbolic contents",
+        design_ref="DESIGN.md §5 C14",
+        text="Bounded: for each listed shape (dimensions of size 1, non-square) and all contents from the exact grid, the real functions keep the "
+             "row-major sequence, the element count and a recorded shape that matches the data; there-and-back is the identity; a reshape to a "
+             "different element count panics (three refusing arms).",
+        note="bounded in shape; should_panic harnesses accept any panic on the path.",
+    ),
+    "C15": dict(
+        category="proof",
+        technique="Verus formula contracts on the 31 element closures / statements of the tensor ops (all rank copies tied to one formula) + Kani per op x rank on small shapes",
+        design_ref="DESIGN.md §5 C15",
+        text="Verus proves for every cell of every shape that each rank copy (1-D..4-D) of add/sub/mul/div-by-scalar/scaled Hadamard/clamp/mean "
+             "computes the one documented element expression (IEEE operator on the operand cells). Kani runs the real functions on small shapes "
+             "of every rank with symbolic contents: result cell = operator on the cells at the same index, shape unchanged and consistent, "
+             "mismatched shapes refused; dot / outer product against their index definitions; clamp into the interval for every f32 (complete).",
+        note="F1 uninterpreted floats in Verus; iterator zip order covered by the bounded harnesses only.",
     ),
     "C18": dict(
         category="proof",
